@@ -336,3 +336,51 @@ def gen_suffix(rng, pool, docs, nops=10, weights=None):
         lines += [line, 'snapshot']
         count += 1
     return lines
+
+
+# ---------------------------------------------------------------------------
+# XML-facing ops (C01): random parameter fill, block formats with parameters, common definitions
+# ---------------------------------------------------------------------------
+def op_fill(rng, pool, docs):
+    k = rng.choice(KINDS)
+    if not pool.by_kind[k]:
+        return None
+    return 'fill %s %d' % (rng.choice(pool.by_kind[k]), rng.randrange(1 << 30))
+
+
+def op_fillblock(rng, pool, docs):
+    if not pool.by_kind['chan']:
+        return None
+    h = rng.choice(pool.by_kind['chan'])
+    td = pool.td.get(h, 3)
+    t = td if (td in (1, 3, 4, 5) and rng.random() < 0.9) else rng.choice([1, 3, 4, 5])
+    st = pool.__dict__.setdefault('blk', {})
+    last = st.get((h, t), 0)
+    st[(h, t)] = last + rng.choice([1, 2, 5]) * 10 ** rng.choice([7, 8, 9])
+    return 'fillblock %s %d %d %d' % (h, t, rng.randrange(1 << 30), last)
+
+
+def rand_id_c01(rng, pool, kind, h):
+    """Defined, non-reserved IDs inside the field (C01's quantifier)."""
+    if kind == 'uid':
+        return (0, rng.choice([1, 2, 3, 7, 0x1001, 0xfffffffe, 0x12345678]), 0)
+    v = rng.choice([0x1000, 0x1001, 0x1002, 0x1005, 0xffff, 0xfffe, 0x2000])
+    if kind in ('pack', 'chan'):
+        return (pool.td.get(h, 0), v, 0)
+    if kind == 'stream':
+        return (rng.choice([0, 1, 3, 4]), v, 0)
+    if kind == 'track':
+        return (rng.choice([0, 1, 3, 4]), v, rng.choice([1, 2, 3, 255]))
+    return (0, v, 0)
+
+
+def op_setid_c01(rng, pool, docs):
+    k = rng.choice(KINDS)
+    if not pool.by_kind[k]:
+        return None
+    h = rng.choice(pool.by_kind[k])
+    return 'setid %s %d %d %d' % ((h,) + rand_id_c01(rng, pool, k, h))
+
+
+XML_EXTRA = dict(fill=(30, op_fill), fillblock=(14, op_fillblock), setidc=(5, op_setid_c01), simple=(4, op_simple),
+                 settimes=(2, op_settimes))
